@@ -42,183 +42,8 @@ func runC18(c *Ctx) {
 		return
 	}
 
-	// ---- R1 ---------------------------------------------------------------------------------
-	rule := "R1-single-constructor"
-	allowedAlloc := map[string]string{
-		"pkg/cookies.MakeCookieFromOptions": "the constructor",
-		"pkg/sessions/cookie.copyCookie":    "attribute-preserving copy",
-		"pkg/validation.validateCookieName": "name validation only, never sent",
-	}
-	for _, fn := range c.P.ModFns {
-		for _, b := range fn.Blocks {
-			for _, in := range b.Instrs {
-				al, ok := in.(*ssa.Alloc)
-				if !ok || !isCookiePtr(al.Type()) {
-					continue
-				}
-				key := "alloc|" + fnKey(fn)
-				if why, ok := allowedAlloc[fnKey(fn)]; ok {
-					c.ok(rule, key, in, why)
-				} else {
-					c.bad(rule, key, in, "an http.Cookie is constructed outside MakeCookieFromOptions/copyCookie: its attributes are not derived from the cookie options", nil, 0)
-				}
-			}
-		}
-	}
-	// SetCookie arguments
-	var derives func(v ssa.Value, depth int) string
-	seenFn := map[*ssa.Function]bool{}
-	seenV := map[ssa.Value]bool{}
-	derives = func(v ssa.Value, depth int) string {
-		if depth > 40 {
-			return "a derivation too deep to decide"
-		}
-		v = unwrap0(v)
-		if seenV[v] {
-			return "" // already being examined on this derivation (loop-carried value)
-		}
-		seenV[v] = true
-		defer delete(seenV, v)
-		if call, ok := v.(*ssa.Call); ok {
-			if bi, ok := call.Call.Value.(*ssa.Builtin); ok && bi.Name() == "append" {
-				for _, a := range call.Call.Args {
-					if why := derives(a, depth+1); why != "" {
-						return why
-					}
-				}
-				return ""
-			}
-		}
-		switch x := v.(type) {
-		case *ssa.Call:
-			sc := x.Call.StaticCallee()
-			if sc == mk || sc == copyCookie {
-				return ""
-			}
-			if sc != nil && c.P.InModule(sc) {
-				if seenFn[sc] {
-					return ""
-				}
-				seenFn[sc] = true
-				defer delete(seenFn, sc)
-				for _, b := range sc.Blocks {
-					if ret, ok := b.Instrs[len(b.Instrs)-1].(*ssa.Return); ok && len(ret.Results) > 0 {
-						if why := derives(ret.Results[0], depth+1); why != "" {
-							return why
-						}
-					}
-				}
-				return ""
-			}
-			return "the result of " + walk.CalleeName(&x.Call)
-		case *ssa.Extract:
-			return derives(x.Tuple, depth+1)
-		case *ssa.Phi:
-			for _, e := range x.Edges {
-				if why := derives(e, depth+1); why != "" {
-					return why
-				}
-			}
-			return ""
-		case *ssa.UnOp:
-			// element of a []*http.Cookie
-			if ia, ok := x.X.(*ssa.IndexAddr); ok {
-				return derives(ia.X, depth+1)
-			}
-			if al, ok := x.X.(*ssa.Alloc); ok {
-				for _, st := range storesTo(al) {
-					if why := derives(st.Val, depth+1); why != "" {
-						return why
-					}
-				}
-				return ""
-			}
-		case *ssa.Slice:
-			// slice literal backing array: every stored element
-			if al, ok := x.X.(*ssa.Alloc); ok {
-				for _, ref := range *al.Referrers() {
-					if ia, ok := ref.(*ssa.IndexAddr); ok {
-						for _, r2 := range *ia.Referrers() {
-							if st, ok := r2.(*ssa.Store); ok && st.Addr == ia {
-								if why := derives(st.Val, depth+1); why != "" {
-									return why
-								}
-							}
-						}
-					}
-				}
-				return ""
-			}
-			return derives(x.X, depth+1)
-		case *ssa.Parameter:
-			// parameter of a helper: every call site
-			fn := x.Parent()
-			idx := -1
-			for i, q := range fn.Params {
-				if q == x {
-					idx = i
-				}
-			}
-			callers := c.callersOf(fn)
-			if idx < 0 || len(callers) == 0 {
-				return "a parameter of " + prog.Name(fn) + " whose callers cannot be enumerated"
-			}
-			for _, cs := range callers {
-				if why := derives(cs.Common().Args[idx], depth+1); why != "" {
-					return why
-				}
-			}
-			return ""
-		case *ssa.Alloc:
-			if isCookiePtr(x.Type()) {
-				if _, ok := allowedAlloc[fnKey(x.Parent())]; ok {
-					return ""
-				}
-			}
-		case *ssa.Const:
-			return ""
-		}
-		// append(...) of cookie slices
-		if call, ok := v.(*ssa.Call); ok {
-			if bi, ok := call.Call.Value.(*ssa.Builtin); ok && bi.Name() == "append" {
-				for _, a := range call.Call.Args {
-					if why := derives(a, depth+1); why != "" {
-						return why
-					}
-				}
-				return ""
-			}
-		}
-		return "an unrecognised origin (" + v.String() + ")"
-	}
-	for _, cs := range c.callersOf(setCookie) {
-		c.R.CallSites++
-		key := "setcookie|" + fnKey(cs.Parent())
-		arg := cs.Common().Args[1]
-		// builtin append shows up as Call with Builtin value: handle through derives
-		if why := derivesWithAppend(arg, derives); why == "" {
-			c.ok(rule, key, cs, "the cookie derives from MakeCookieFromOptions")
-		} else {
-			c.bad(rule, key, cs, "a cookie is sent that derives from "+why+": it does not carry the configured attributes", nil, 0)
-		}
-	}
-	// hand-written Set-Cookie headers
-	for _, fn := range c.P.ModFns {
-		for _, b := range fn.Blocks {
-			for _, in := range b.Instrs {
-				call, ok := in.(*ssa.Call)
-				if !ok || call.Call.StaticCallee() == nil || call.Call.StaticCallee().Signature.Recv() == nil || !isHTTPHeader(call.Call.StaticCallee().Signature.Recv().Type()) {
-					continue
-				}
-				if n := call.Call.StaticCallee().Name(); n != "Add" && n != "Set" {
-					continue
-				}
-				if k, ok := ConstString(call.Call.Args[1]); ok && strings.EqualFold(k, "Set-Cookie") {
-					c.bad(rule, "manual-set-cookie|"+fnKey(fn), in, "a Set-Cookie header is written by hand", nil, 0)
-				}
-			}
-		}
-	}
+	runCookieConstructorRule(c, "R1-single-constructor")
+	rule := ""
 
 	runC18R2(c, mk)
 
@@ -618,4 +443,191 @@ func runC18R2(c *Ctx, mk *ssa.Function) {
 			c.bad(rule, key, p.Exit, "the cookie domain is chosen without the suffix test on the request host, or not as the first match in list order", p, p.End())
 		}
 	})
+}
+
+// runCookieConstructorRule: cookies are allocated only in the constructors and every SetCookie argument
+// derives from them (C18.R1, also C09: the constructors are what carries Max-Age).
+func runCookieConstructorRule(c *Ctx, rule string) {
+	mk := c.Fn(rule, "pkg/cookies.MakeCookieFromOptions")
+	copyCookie := c.Fn(rule, "pkg/sessions/cookie.copyCookie")
+	setCookie := c.StdFunc(rule, "net/http.SetCookie")
+	if mk == nil || copyCookie == nil || setCookie == nil {
+		return
+	}
+	allowedAlloc := map[string]string{
+		"pkg/cookies.MakeCookieFromOptions": "the constructor",
+		"pkg/sessions/cookie.copyCookie":    "attribute-preserving copy",
+		"pkg/validation.validateCookieName": "name validation only, never sent",
+	}
+	for _, fn := range c.P.ModFns {
+		for _, b := range fn.Blocks {
+			for _, in := range b.Instrs {
+				al, ok := in.(*ssa.Alloc)
+				if !ok || !isCookiePtr(al.Type()) {
+					continue
+				}
+				key := "alloc|" + fnKey(fn)
+				if why, ok := allowedAlloc[fnKey(fn)]; ok {
+					c.ok(rule, key, in, why)
+				} else {
+					c.bad(rule, key, in, "an http.Cookie is constructed outside MakeCookieFromOptions/copyCookie: its attributes are not derived from the cookie options", nil, 0)
+				}
+			}
+		}
+	}
+	// SetCookie arguments
+	var derives func(v ssa.Value, depth int) string
+	seenFn := map[*ssa.Function]bool{}
+	seenV := map[ssa.Value]bool{}
+	derives = func(v ssa.Value, depth int) string {
+		if depth > 40 {
+			return "a derivation too deep to decide"
+		}
+		v = unwrap0(v)
+		if seenV[v] {
+			return "" // already being examined on this derivation (loop-carried value)
+		}
+		seenV[v] = true
+		defer delete(seenV, v)
+		if call, ok := v.(*ssa.Call); ok {
+			if bi, ok := call.Call.Value.(*ssa.Builtin); ok && bi.Name() == "append" {
+				for _, a := range call.Call.Args {
+					if why := derives(a, depth+1); why != "" {
+						return why
+					}
+				}
+				return ""
+			}
+		}
+		switch x := v.(type) {
+		case *ssa.Call:
+			sc := x.Call.StaticCallee()
+			if sc == mk || sc == copyCookie {
+				return ""
+			}
+			if sc != nil && c.P.InModule(sc) {
+				if seenFn[sc] {
+					return ""
+				}
+				seenFn[sc] = true
+				defer delete(seenFn, sc)
+				for _, b := range sc.Blocks {
+					if ret, ok := b.Instrs[len(b.Instrs)-1].(*ssa.Return); ok && len(ret.Results) > 0 {
+						if why := derives(ret.Results[0], depth+1); why != "" {
+							return why
+						}
+					}
+				}
+				return ""
+			}
+			return "the result of " + walk.CalleeName(&x.Call)
+		case *ssa.Extract:
+			return derives(x.Tuple, depth+1)
+		case *ssa.Phi:
+			for _, e := range x.Edges {
+				if why := derives(e, depth+1); why != "" {
+					return why
+				}
+			}
+			return ""
+		case *ssa.UnOp:
+			// element of a []*http.Cookie
+			if ia, ok := x.X.(*ssa.IndexAddr); ok {
+				return derives(ia.X, depth+1)
+			}
+			if al, ok := x.X.(*ssa.Alloc); ok {
+				for _, st := range storesTo(al) {
+					if why := derives(st.Val, depth+1); why != "" {
+						return why
+					}
+				}
+				return ""
+			}
+		case *ssa.Slice:
+			// slice literal backing array: every stored element
+			if al, ok := x.X.(*ssa.Alloc); ok {
+				for _, ref := range *al.Referrers() {
+					if ia, ok := ref.(*ssa.IndexAddr); ok {
+						for _, r2 := range *ia.Referrers() {
+							if st, ok := r2.(*ssa.Store); ok && st.Addr == ia {
+								if why := derives(st.Val, depth+1); why != "" {
+									return why
+								}
+							}
+						}
+					}
+				}
+				return ""
+			}
+			return derives(x.X, depth+1)
+		case *ssa.Parameter:
+			// parameter of a helper: every call site
+			fn := x.Parent()
+			idx := -1
+			for i, q := range fn.Params {
+				if q == x {
+					idx = i
+				}
+			}
+			callers := c.callersOf(fn)
+			if idx < 0 || len(callers) == 0 {
+				return "a parameter of " + prog.Name(fn) + " whose callers cannot be enumerated"
+			}
+			for _, cs := range callers {
+				if why := derives(cs.Common().Args[idx], depth+1); why != "" {
+					return why
+				}
+			}
+			return ""
+		case *ssa.Alloc:
+			if isCookiePtr(x.Type()) {
+				if _, ok := allowedAlloc[fnKey(x.Parent())]; ok {
+					return ""
+				}
+			}
+		case *ssa.Const:
+			return ""
+		}
+		// append(...) of cookie slices
+		if call, ok := v.(*ssa.Call); ok {
+			if bi, ok := call.Call.Value.(*ssa.Builtin); ok && bi.Name() == "append" {
+				for _, a := range call.Call.Args {
+					if why := derives(a, depth+1); why != "" {
+						return why
+					}
+				}
+				return ""
+			}
+		}
+		return "an unrecognised origin (" + v.String() + ")"
+	}
+	for _, cs := range c.callersOf(setCookie) {
+		c.R.CallSites++
+		key := "setcookie|" + fnKey(cs.Parent())
+		arg := cs.Common().Args[1]
+		// builtin append shows up as Call with Builtin value: handle through derives
+		if why := derivesWithAppend(arg, derives); why == "" {
+			c.ok(rule, key, cs, "the cookie derives from MakeCookieFromOptions")
+		} else {
+			c.bad(rule, key, cs, "a cookie is sent that derives from "+why+": it does not carry the configured attributes", nil, 0)
+		}
+	}
+	// hand-written Set-Cookie headers
+	for _, fn := range c.P.ModFns {
+		for _, b := range fn.Blocks {
+			for _, in := range b.Instrs {
+				call, ok := in.(*ssa.Call)
+				if !ok || call.Call.StaticCallee() == nil || call.Call.StaticCallee().Signature.Recv() == nil || !isHTTPHeader(call.Call.StaticCallee().Signature.Recv().Type()) {
+					continue
+				}
+				if n := call.Call.StaticCallee().Name(); n != "Add" && n != "Set" {
+					continue
+				}
+				if k, ok := ConstString(call.Call.Args[1]); ok && strings.EqualFold(k, "Set-Cookie") {
+					c.bad(rule, "manual-set-cookie|"+fnKey(fn), in, "a Set-Cookie header is written by hand", nil, 0)
+				}
+			}
+		}
+	}
+
 }
